@@ -12,7 +12,7 @@ import ranges
 
 META = {
     "level": "other",
-    "technique": "static analysis: interprocedural raw-value (taint/range) propagation from the total entry points over MIR with dominance-based bounding facts (rustc_private driver)",
+    "technique": "static analysis: interprocedural raw-value (taint/range) propagation from the total entry points over MIR with dominance-based bounding facts; a second, scaling-surviving taint for unwrap sinks; callee-side bounds on returned values (rustc_private driver; bodies normalised by helper inlining and combinator expansion)",
     "explanation": "Every scalar parameter of the functions the API defines for all usize values starts as an unbounded ('raw') value. The "
                    "analysis follows it through copies, casts, arithmetic and crate-local calls (joining over call sites, trait-dispatched "
                    "calls into every impl) and reports each overflow assertion, panicking bounds check, assert!/panic! edge or unwrap() "
